@@ -8,7 +8,9 @@ PAIRS = [("Gen/RequireGlue.v", "resolve_src", "Model/ResolveSrc.v", "expected_re
          ("Gen/BufferCodecs.v", "buffer_strings_src", "Model/BufferSrc.v", "expected_buffer_strings_src",
           "the text of the string entry points of buffer/buffer.go that Model/BufferStrings.v was written against"),
          ("Gen/UrlTables.v", "usp_src", "Model/UspSrc.v", "expected_usp_src",
-          "the text of the URLSearchParams code (urlsearchparams.go, nodeurl.go, escape.go) that Model/SearchParams.v was written against")]
+          "the text of the URLSearchParams code (urlsearchparams.go, nodeurl.go, escape.go) that Model/SearchParams.v was written against"),
+         ("Gen/UtilFormat.v", "console_util_src", "Model/ConsoleSrc.v", "expected_console_util_src",
+          "the text of every function of console/module.go and util/module.go that Model/Format.v (format, console routing) was written against")]
 for gen, gname, model, mname, what in PAIRS:
     g = open(os.path.join(COQ, gen)).read()
     m = re.search(r"Definition %s : list \(string \* string\) := \[(.*?)\]%%string\." % gname, g, re.S)
